@@ -44,7 +44,7 @@ def xml_tree(node):
 def expected_xml(item, imagewriter=False, stripcontrol=False):
     """what the XML must contain for a layout item: same hierarchy, boxes, fonts, sizes, character data"""
     import re
-    b = ut.bbox2str
+    b = lambda bb: "%.3f,%.3f,%.3f,%.3f" % tuple(bb)          # the documented attribute format, written out here (not the library's own helper)
     if isinstance(item, lay.LTPage):
         kids = [expected_xml(c_, imagewriter, stripcontrol) for c_ in item]
         if item.groups is not None:
@@ -59,7 +59,7 @@ def expected_xml(item, imagewriter=False, stripcontrol=False):
     if isinstance(item, lay.LTRect):
         return ("rect", {"linewidth": "%d" % item.linewidth, "bbox": b(item.bbox)}, [])
     if isinstance(item, lay.LTCurve):
-        return ("curve", {"linewidth": "%d" % item.linewidth, "bbox": b(item.bbox), "pts": item.get_pts()}, [])
+        return ("curve", {"linewidth": "%d" % item.linewidth, "bbox": b(item.bbox), "pts": ",".join("%.3f,%.3f" % (px, py) for px, py in item.pts)}, [])
     if isinstance(item, lay.LTFigure):
         return ("figure", {"name": item.name, "bbox": b(item.bbox)}, [expected_xml(c_, imagewriter, stripcontrol) for c_ in item])
     if isinstance(item, lay.LTTextLine):
@@ -137,7 +137,9 @@ def gen_doc(rng):
     objs[9] = Stream({"N": 3}, b"")
     from specs.pdfgen import ser
     txt = bytes(codes).replace(b"\\", b"\\\\").replace(b"(", b"\\(").replace(b")", b"\\)")
-    content = b"q " + ser(Name(csname)) + b" cs 0.1 0.2 0.3 sc BT /F1 12 Tf 72 700 Td (" + txt + b") Tj 0 -20 Td (" + txt[::-1] + b") Tj ET Q "
+    # the text starts anywhere, also left of / below the page origin and at fractional positions
+    tx, ty = rng.choice([72, 72, -6.5, 0, 1234.125, -0.0004]), rng.choice([700, 700, -3.25, 0.5, 12.0625])
+    content = b"q " + ser(Name(csname)) + (" cs 0.1 0.2 0.3 sc BT /F1 12 Tf %s %s Td (" % (tx, ty)).encode() + txt + b") Tj 0 -20 Td (" + txt[::-1] + b") Tj ET Q "
     if rng.random() < .7:
         content += b"q 1 0 0 1 100 100 cm " + ser(Name(xname)) + b" Do Q "
     if rng.random() < .7:
